@@ -59,7 +59,13 @@ type lifeCase struct {
 	AcceptDelayMs int `json:"accept_delay_ms,omitempty"`
 	// Reenter: every installed callback calls back into the server (Server.Addr(), which takes the server's lock for reading)
 	Reenter bool `json:"reenter,omitempty"`
+	// BareListener: Serve is given a listener that offers nothing but Accept, Close and Addr (what tls.NewListener,
+	// netutil.LimitListener or any decorator embedding net.Listener is) instead of the *net.TCPListener itself
+	BareListener bool `json:"bare_listener,omitempty"`
 }
+
+// bareListener hides every method of the wrapped listener except the three of net.Listener.
+type bareListener struct{ net.Listener }
 
 // slowListener wraps accepted connections so that Write is delayed.
 type slowListener struct {
@@ -297,6 +303,9 @@ func runLifeOnce(c lifeCase) harness.Result {
 	if c.WriteDelayMs > 0 {
 		serveOn = slowListener{listener, time.Duration(c.WriteDelayMs) * time.Millisecond}
 	}
+	if c.BareListener {
+		serveOn = bareListener{serveOn}
+	}
 	go func() { serveErr <- s.Serve(ctx, serveOn, h) }()
 	if c.Callbacks&cbServe != 0 {
 		select {
@@ -320,6 +329,9 @@ func runLifeOnce(c lifeCase) harness.Result {
 	labels := []string{fmt.Sprintf("callbacks:%d", c.Callbacks)}
 	if c.AcceptDelayMs > 0 {
 		labels = append(labels, "slow-accept-callback")
+	}
+	if c.BareListener || c.WriteDelayMs > 0 {
+		labels = append(labels, "listener-offers-only-Accept-Close-Addr")
 	}
 	hasAccept := c.Callbacks&cbAccept != 0
 	hasClose := c.Callbacks&cbClose != 0
@@ -754,6 +766,7 @@ func genLife(t *rapid.T) lifeCase {
 		}
 	}
 	c.Reenter = c.Callbacks != 0 && rapid.IntRange(0, 2).Draw(t, "reenter") == 0
+	c.BareListener = rapid.IntRange(0, 2).Draw(t, "bare_listener") == 0
 	if c.Callbacks&cbAccept != 0 && rapid.IntRange(0, 2).Draw(t, "slow_accept") == 0 {
 		c.AcceptDelayMs = rapid.SampledFrom([]int{2, 10, 25}).Draw(t, "accept_delay")
 		if rapid.Bool().Draw(t, "connect_last") {
